@@ -431,7 +431,7 @@ pub fn tok_dropped(id: u32) {
 
 pub fn new_composite(kind: TokKind) -> Val {
     with(|w| {
-        let id = w.toks.len() as u32;
+        let id = crate::val::handle_of(w.toks.len());
         let born = w.tick();
         w.toks.push(TokRec {
             producer: None,
@@ -449,7 +449,7 @@ pub fn shape_of(id: u32) -> Shape {
 
 impl World {
     pub fn shape_of(&self, id: u32, depth: usize) -> Shape {
-        match self.toks.get(id as usize) {
+        match self.toks.get(crate::val::index_of(id)) {
             None => Shape::Unknown(id),
             Some(_) if depth > 6 => Shape::Unknown(id),
             Some(t) => match &t.kind {
@@ -470,10 +470,10 @@ impl World {
             if guard > 10_000 {
                 break;
             }
-            if let Some(t) = self.toks.get_mut(id as usize) {
+            if let Some(t) = self.toks.get_mut(crate::val::index_of(id)) {
                 t.drops += 1;
                 if t.drops > 1 {
-                    let m = format!("value t{} dropped {} times", id, t.drops);
+                    let m = format!("value t{} dropped {} times", crate::val::index_of(id), t.drops);
                     let f = self.tok_family(id);
                     self.violate_f(Oracle::DV, f, m);
                     continue;
@@ -484,7 +484,7 @@ impl World {
                     TokKind::Res(_, x) | TokKind::Pair(_, x) => stack.push(*x),
                 }
                 if self.trace_on {
-                    self.trace.push(format!("      drop t{}", id));
+                    self.trace.push(format!("      drop t{}", crate::val::index_of(id)));
                 }
             } else {
                 self.unknown_tok_drops += 1;
@@ -551,7 +551,7 @@ impl World {
     /// family of the combinator whose child produced token `t` (the top-level
     /// combinator's family when the token is unknown or a harness composite)
     pub fn tok_family(&self, t: u32) -> Option<Family> {
-        let by_producer = self.toks.get(t as usize).and_then(|r| r.producer).and_then(|n| self.owner_family(n));
+        let by_producer = self.toks.get(crate::val::index_of(t)).and_then(|r| r.producer).and_then(|n| self.owner_family(n));
         by_producer.or_else(|| {
             // unknown handle / harness composite: attributable only when the
             // case has a single combinator
@@ -597,7 +597,7 @@ impl World {
     }
 
     pub fn new_tok(&mut self, producer: NodeId) -> Val {
-        let id = self.toks.len() as u32;
+        let id = crate::val::handle_of(self.toks.len());
         let born = self.tick();
         self.toks.push(TokRec {
             producer: Some(producer),
